@@ -187,27 +187,34 @@ class VPipeline(VCluster):
         patch(cl.Cluster, "_mark_complete", mark_complete)
 
     # ------------------------------------------------------------------ external commands
+    def yield_point(self, kind, detail=""):
+        if kind == "EXT" and self._skip_ext_yield:
+            self._skip_ext_yield = False      # the yield of this command was already taken in `external` below
+            return
+        super().yield_point(kind, detail)
+
+    _skip_ext_yield = False
+
     def external(self, command, env):
         c0 = command[0]
         p = self.cur()
+        self.yield_point("EXT", " ".join(command[:3]))
         fork = getattr(p, "fork_fail", None)
         if fork is not None and (fork == "*" or fork == c0):
             # the command cannot be started at all: subprocess raises OSError in the caller
-            self.yield_point("EXT", " ".join(command[:3]))
             p.fork_fail = None
             self.log("forkfail", p.pid, tuple(command[:3]))
             raise OSError(errno.ENOMEM, "Cannot allocate memory")
         if c0 == "autoconfig":
-            self.yield_point("EXT", " ".join(command[:3]))
             return self._autoconfig(p, command), "", ""
         if c0 == "jade" and command[1:3] == ["pipeline", "submit-next-stage"]:
-            self.yield_point("EXT", " ".join(command[:3]))
             args = tuple(a.replace(self.pdir, "<P>") for a in command[3:])
             m = re.match(r"--stage-num=(-?\d+)$", command[4]) if len(command) > 4 else None
             nxt = int(m.group(1)) if m else None
             self.log("nextstage", p.pid, args, self.snapshot(nxt if nxt is not None and 0 < nxt < 50 else 1))
             rc = self._child(p, "nextstage", lambda: self._entry_pipeline(command[2:]))
             return rc, "", ""
+        self._skip_ext_yield = True           # (same thread, consumed by the first statement of the base method)
         return super().external(command, env)
 
     def _autoconfig(self, p, command):
